@@ -193,11 +193,13 @@ $BODY
                                 assert(p == r[i]);
                             }
 //@   >>>
-//@   after "ops.push(Op::Add, def.pos.clone());" <<<
-                            proof { bs = bs.push(ops.ops@.len() as int); }
+//@   after "true, root, );" nth 2 <<<
+                            // (anchored before the `Add` push so that a change to that push cannot lose the anchor: the piece ends behind it)
+                            proof { bs = bs.push((ops.ops@.len() + 1) as int); }
 //@   >>>
 //@   mutant fmt_list_args_not_reversed "elems.reverse();" => "" expect format_list_arm
 //@   mutant fmt_list_no_concat "ops.push(Op::Add, def.pos.clone());" => "ops.push(Op::Noop, def.pos.clone());" expect format_list_arm
+//@   mutant fmt_list_concat_swapped_for_sub "ops.push(Op::Add, def.pos.clone());" => "ops.push(Op::Sub, def.pos.clone());" expect format_list_arm
 //@   mutant fmt_list_surplus_args_accepted "if placeholders != elems.len() {" => "if placeholders > elems.len() {" expect format_list_arm
 //@ end
 
